@@ -347,6 +347,7 @@ class Interp:
         self.stack = []       # FuncInfo call stack
         self.self_cls = None  # dynamic class of `self`
         self.stats = {'stmts': 0, 'forks': 0, 'calls_inlined': 0}
+        self.trace_arith = False
 
     # ------------------------------------------------------------------ entry
     def run(self, fn, args=None, kwargs=None, st=None, self_obj=None):
@@ -1236,6 +1237,8 @@ class Interp:
                 yield None, s
                 continue
             a, b = ab
+            if self.trace_arith:
+                s = s.note(('arith', type(node.op).__name__, node.lineno, self.cur.qualname))
             yield from self.binop(node.op, a, b, s, node)
 
     def binop(self, op, a, b, s, node=None):
